@@ -13,8 +13,8 @@ Open Scope Z_scope.
    counted (lib/stringlib/lua/matching.lua:237 pins this behaviour) *)
 Lemma gsub_count_refuted :
   exists ptn s repl p, build ptn = Ok p /\
-    fst (gsub_im p 1000 s 0 repl (-1)) = DVals [CStr [120]; CPos 2] /\
-    gsub_s p s repl (-1) = DVals [CStr [120]; CPos 1].
+    fst (gsub_im p 1000 s 0 repl None) = DVals [CStr [120]; CPos 2] /\
+    gsub_s p s repl None = DVals [CStr [120]; CPos 1].
 Proof.
   exists [37; 119; 42], [97; 98; 99], [120]. eexists. split; [vm_compute; reflexivity|].
   split; vm_compute; reflexivity.
